@@ -67,7 +67,7 @@ def run(rep, tier, rng):
                        "the files equal those of the undisturbed run; non-trivial = distinct case" % len(codes))
     impl = stages.correspondence(rep, "wfault", dev, cases, "wfault")
     nfail, surfaced, exhaustive_k = 0, 0, 0
-    known_f15 = []
+    n_f15 = 0
     for c, m, r in zip(cases, meta, impl):
         kind, name, code, hs, dest, k, pers, ncalls, base = m
         rep.dist("%s_dest%d_%s" % (kind, dest, "persistent" if pers else "oneshot"))
@@ -95,20 +95,19 @@ def run(rep, tier, rng):
                 # after heal + finalize (+ finalize, drop) the files must be those of the undisturbed run, provided
                 # the fault hit a finalize (a failed write_shape legitimately loses that shape)
                 only_finalizes_failed = all(_call_kind(c, i) == "f" for i in errs)
-                # known finding F15: a write_shape issued after a failed finalize, before the next successful one,
-                # lands where the failed finalize left the destination (inside the header)
-                f15 = False
+                # (F15, repaired: a write_shape issued after a failed finalize used to land inside the header; such
+                # histories are held to the same standard as all others)
+                wrote_after_failed_finalize = False
                 pending = False
                 for i, x in enumerate(rs):
                     kd = _call_kind(c, i)
                     if kd == "f":
                         pending = (x[0] == "err") or (pending and x[0] != "ok")
                     elif kd == "w" and pending and x[0] == "ok":
-                        f15 = True
-                if only_finalizes_failed and f15:
-                    if rs[-1] != ("ok",) or res["shp"]["buf"] != base["shp"]["buf"] or res["shx"]["buf"] != base["shx"]["buf"]:
-                        known_f15.append(c)
-                elif only_finalizes_failed:
+                        wrote_after_failed_finalize = True
+                if only_finalizes_failed and wrote_after_failed_finalize:
+                    n_f15 += 1
+                if only_finalizes_failed:
                     if rs[-1] != ("ok",) or rs[-2] != ("ok",):
                         msg = msg or "finalize retried on a healed destination failed: %r" % (rs[-2:],)
                     elif res["shp"]["buf"] != base["shp"]["buf"] or res["shx"]["buf"] != base["shx"]["buf"]:
@@ -132,15 +131,7 @@ def run(rep, tier, rng):
             nfail += 1
             if nfail == 1:
                 rep.violation({"kind": "oracle", "what": msg, "case_kind": "whist", "case": c, "workload": name, "chunk": cs})
-    listed = [f for f in sfv.load_known_findings().get("findings", []) if f.get("id") == "F15"]
-    if known_f15:
-        if listed:
-            rep.known_finding("F15 a write_shape issued after a failed finalize (and before the next successful one) is written "
-                              "at the position the failed finalize left, inside the header: %d histories of this run" % len(known_f15))
-            rep.cov["known_finding_F15_cases"] = len(known_f15)
-        else:
-            rep.violation({"kind": "oracle", "what": "files differ from the undisturbed run after write-after-failed-finalize",
-                           "case_kind": "whist", "case": known_f15[0]})
+    rep.cov["histories_with_a_write_after_a_failed_finalize"] = n_f15
     rep.cov["faults_surfaced_from_the_failing_call"] = surfaced
     rep.cov["chunked_runs"] = len(chunk_cases)
     rep.cov["exhaustive"] = True
